@@ -11,16 +11,20 @@ pub fn dispatch(k: &str, t: &[&str]) -> Option<String> {
         "event_buffer_column" => {
             let mut cb = WireColumnBuffer::default();
             let mut n = 0u64;
-            if t[0] != "-" {
-                for x in t[0].split(',') {
+            let wire = t[0].starts_with("W:");
+            let spec = if wire { &t[0][2..] } else { t[0] };
+            let mut mixed = vec![];
+            if spec != "-" {
+                for x in spec.split(',') {
                     let v = if let Some(r) = x.strip_prefix("i:") { AnyVal::Int(num(r)) }
                         else if let Some(r) = x.strip_prefix("f:") { AnyVal::Float(f64::from_bits(num::<u64>(r))) }
                         else if let Some(r) = x.strip_prefix("s:") { AnyVal::Str(unsafe { String::from_utf8_unchecked(unhex(if r.is_empty() { "-" } else { r })) }) }
                         else { AnyVal::Null };
-                    cb.push(v, n);
+                    if wire { mixed.push(v); } else { cb.push(v, n); }
                     n += 1;
                 }
             }
+            if wire { cb.data = ColumnData::Mixed(mixed); }
             Some(match InputColumn::from_column_data(cb.data, n) {
                 InputColumn::Int(v) => format!("Int {}", fmt_vec(&v)),
                 InputColumn::Float(v) => format!("Float {}", fmt_f64_bits(&v)),
@@ -28,7 +32,9 @@ pub fn dispatch(k: &str, t: &[&str]) -> Option<String> {
                 InputColumn::Str(v) => format!("Str {}", if v.is_empty() { "-".to_string() } else { v.iter().map(|s| hex(s.as_bytes())).collect::<Vec<_>>().join(",") }),
                 InputColumn::NullableInt(rows, p) => format!("NullableInt {} {} {}", rows, fmt_vec(&p.iter().map(|x| x.0).collect::<Vec<_>>()), fmt_vec(&p.iter().map(|x| x.1).collect::<Vec<_>>())),
                 InputColumn::NullableFloat(rows, p) => format!("NullableFloat {} {} {}", rows, fmt_vec(&p.iter().map(|x| x.0).collect::<Vec<_>>()), fmt_f64_bits(&p.iter().map(|x| x.1).collect::<Vec<_>>())),
-                InputColumn::Mixed(v) => format!("Mixed {}", v.len()),
+                InputColumn::Mixed(v) => format!("Mixed {}", if v.is_empty() { "-".to_string() } else { v.iter().map(|x| match x {
+                    crate::ingest::raw_val::RawVal::Null => "n".to_string(), crate::ingest::raw_val::RawVal::Int(i) => format!("i:{}", i),
+                    crate::ingest::raw_val::RawVal::Float(f) => format!("f:{}", f.0.to_bits()), crate::ingest::raw_val::RawVal::Str(s) => format!("s:{}", hex(s.as_bytes())) }).collect::<Vec<_>>().join(",") }),
             })
         }
         "event_buffer_roundtrip" => {
